@@ -46,15 +46,19 @@ func ruleImageMethods(c *Ctx) {
 			fg, bg := cFalse, cFalse
 			other := ""
 			for _, ret := range returnsOf(fn) {
-				v := n.Norm(ret.Results[0]).String()
-				rc := n.ReachCond(fn, nil, ret.Block())
-				switch v {
-				case "c.color.Foreground":
-					fg = cOr(fg, rc)
-				case "c.color.Background":
-					bg = cOr(bg, rc)
-				default:
-					other = v
+				reach := n.ReachCond(fn, nil, ret.Block())
+				// (the colour may be picked into a variable first: one alternative per way to get here)
+				for _, cs := range n.valueCases(fn, nil, ret.Results[0], 0) {
+					v := cs.val.String()
+					rc := cAnd(reach, cs.cond)
+					switch v {
+					case "c.color.Foreground":
+						fg = cOr(fg, rc)
+					case "c.color.Background":
+						bg = cOr(bg, rc)
+					default:
+						other = v
+					}
 				}
 			}
 			c.Check(R2, t.recv+".At/only-two-colours", fn.Pos(), other == "", "only color.Foreground / color.Background", orOK(other))
